@@ -35,6 +35,14 @@ def _layouts(inputs, rng, tier):
             perm.reverse()
         else:
             rng.shuffle(perm)
+        if k % 4 == 2:
+            # rows that bring their own id / solved columns (an indexed data set, an earlier result): ids that are a
+            # permutation of the positions, then text ids
+            ids = list(range(len(perm)))
+            rng.shuffle(ids)
+            perm = [{"reaction": s_, "id": ids[j], "solved": j % 2 == 0} for j, s_ in enumerate(perm)]
+        elif k % 4 == 0 and k > 0:
+            perm = [{"reaction": s_, "id": "r%d" % (len(perm) - j), "note": "x"} for j, s_ in enumerate(perm)]
         outs.append({"name": "layout%d_bs%s_j%d" % (k, bs, nj), "inputs": perm, "form": "list" if k % 2 else "dict",
                      "batch_size": bs, "n_jobs": nj, "threshold": 0})
     return outs
